@@ -401,6 +401,7 @@ FIXED = [b"aaaaaaa,b,c", b"aaaaaaa", b"a1,b", b"a[1-3],b", b"a[1-3,07-09],b5", b
 # ------------------------------------------------------------------ running
 class PrintRunner:
     OPS = ["dump", "ptext r", "ptext d", "psweep r +2", "psweep d +2", "pback r", "pback d", "pranges s", "pranges p", "pranges n"]
+    NR = len(OPS) - 1         # `pranges n` (final call skipped on a full array) or `pranges N` (always made): probe_nextrange
     EXACT = ["pexact r +2", "pexact d +2"]
 
     # the literal buffer sizes of the two fixed callers (Print.lean WCOLL_STR / XLIST_BUF)
@@ -446,6 +447,20 @@ class PrintRunner:
             ret, k, flag, oob = ent[7]
             self.variant = "fixed" if (ret == -1 and not oob) else "unchanged"
         return self.variant
+
+    def probe_nextrange(self):
+        """which form of _iterator_advance_range does the code under test have (F14-NEXTRANGE)?  behavioural: a forked
+        child iterates hostlist_next_range over a list whose record array is full; repaired = it survives under ASan.
+        On the repaired form every list is iterated to its NULL (`pranges N`)."""
+        res = run_batch([self.exe], [["new", "pnrprobe"]], env=self.env, timeout=60)
+        ans, crash = res[0]
+        self.nrvariant = ans[1] if crash is None and len(ans) == 2 and ans[1] in ("fixed", "unchanged") else None
+        if self.nrvariant is None:
+            self.ctx.disagreement("next_range variant probe", "hl_harness gave no usable answer: %s %s" % (ans, (crash or "")[-300:]))
+            self.nrvariant = "unchanged"
+        self.OPS = list(self.OPS)
+        self.OPS[self.NR] = "pranges N" if self.nrvariant == "fixed" else "pranges n"
+        return self.nrvariant
 
     def impl(self, cases, exact=()):
         seqs = []
